@@ -31,6 +31,7 @@ type Options struct {
 	maxGo      int
 	horizonBit int // virtual time bound: 0 <= now < 2^horizonBit
 	params     map[string]int64
+	symIdx     bool // keep small slice indexes symbolic (ite-chains) instead of forking over their values
 }
 
 type Violation struct {
@@ -118,6 +119,7 @@ type World struct {
 	randN      int
 	ctrs       map[string]int64
 	panicWhere string
+	cells      map[string]Value
 }
 
 func (w *World) past() bool { return len(w.taken) >= len(w.prefix) }
@@ -393,7 +395,12 @@ func (w *World) assert(c Bool, label, where string) {
 	w.reached[label]++
 	if c.t == nil {
 		if !c.v {
-			w.violation("assert", label, where, w.currentModel())
+			// a concrete failure counts only if the path condition is (still) known satisfiable
+			if r, m := w.sol.check(w.pc, false, w.wantedTerms()); r == "sat" {
+				w.violation("assert", label, where, m)
+			} else if r != "unsat" {
+				w.inconcl = append(w.inconcl, "assert "+label+" failed on a path whose feasibility is unknown: "+r)
+			}
 			panic(pathEnd{"after-violation"})
 		}
 		w.proved = append(w.proved, label)
